@@ -605,3 +605,10 @@ M("m111", "C20", "R20.10", PI, "    jax_double_precision: bool = True\n    verbo
   "PI alone defaults to single precision")
 M("m112", "C20", "R20.10", MIRJ, "    useful_life_at_arrival_distribution_c_0: tuple[float, ...] = (1.0, 0.5)", "    useful_life_at_arrival_distribution_c_0: tuple[float, ...] = (1.0, 0.5, 0.25)",
   "Mirjalili default c_0 inconsistent with the default useful life", survives="no")
+M("m113", "C10", "R10.3", CKPT, "        manager = cls._create_checkpoint_manager(checkpoint_dir, 1, True)\n",
+  "        manager = solver.checkpoint_manager\n        if manager is None or new_checkpoint_dir is not None:\n            manager = cls._create_checkpoint_manager(checkpoint_dir, 1, True)\n",
+  "restore() reads through the solver's own manager, i.e. the directory recorded in config.yaml, not the argument (copied / moved directories) - from seeded change C10b")
+B2("b40", ["C09", "C10"], [
+    (PVI, "        self.values = solver_state.values\n        self.policy = solver_state.policy\n        self.iteration = solver_state.info.iteration\n        self.value_history = solver_state.info.value_history",
+     "        super()._restore_state_from_checkpoint(solver_state)\n        self.value_history = solver_state.info.value_history", None)],
+   "PVI restore delegates the common fields to super()")
